@@ -684,7 +684,8 @@ Lemma vs_setattr_refines_lemma : forall nf l fi name nt count data sz,
   | VFail => attr_set PSameTypeCount (abs_field l fi) (mkAttr name nt count data) = None
   end.
 Proof.
-  intros nf l fi name nt count data sz Hn Hlen Hl Hfi Hsz Hc Hs. unfold vs_setattr. simpl negb. cbv iota.
+  intros nf l fi name nt count data sz Hn Hlen Hl Hfi Hsz Hc Hs. unfold vs_setattr, vs_setattr_gen.
+  replace (negb (access_ok VSSETATTR_ACCESS_CHECKS true)) with false by (unfold access_ok; destruct (0 <? VSSETATTR_ACCESS_CHECKS); reflexivity).
   assert ((((nf <=? fi) || (fi <? 0)) && negb (fi =? _HDF_VDATA)) = false) as Hchk.
   { destruct Hfi as [Hfi | Hfi].
     - subst. rewrite Z.eqb_refl. simpl. apply andb_false_r.
@@ -843,4 +844,17 @@ Proof.
   pose proof (attr_at_abs l valid_max_name Hl N1) as E1. pose proof (attr_at_abs l valid_min_name Hl N2) as E2.
   destruct (attr_at (Some l) valid_max_name) as [a1|]; destruct (attr_at (Some l) valid_min_name) as [a2|];
     simpl in E1, E2; rewrite <- E1; try rewrite <- E2; reflexivity.
+Qed.
+
+(** an object attached for reading refuses VSsetattr / Vsetattr (the table is left as it was: no new table is returned);
+    SDgetdimscale of an unlimited dimension of an HDF file reads as many values as its coordinate variable has *)
+Lemma setattr_refused_for_reading_lemma : forall nf l fi name nt count data,
+  vs_setattr false nf l fi name nt count data = VFail /\ vg_setattr false l name nt count data = VFail.
+Proof. intros. split; reflexivity. Qed.
+Lemma getdimscale_count_lemma : forall size fnr vnr,
+  (size <> 0 -> sd_getdimscale_count true size fnr vnr = size) /\ sd_getdimscale_count true 0 fnr vnr = vnr /\
+  sd_getdimscale_count false 0 fnr vnr = fnr.
+Proof.
+  intros. split; [|split; reflexivity]. intro H. unfold sd_getdimscale_count.
+  destruct (size =? 0) eqn:E; [apply Z.eqb_eq in E; contradiction | reflexivity].
 Qed.
